@@ -338,83 +338,9 @@ func c05(c *Ctx) {
 	}
 
 	// ---- C05.3 validation in the critical section on a current index -------------------------------------
-	r = "C05.3/validation-in-critical-section"
-	for _, name := range []string{"precommit", "preCommitWith"} {
-		f := c.mustFn(r, storeT+name)
-		if f == nil {
-			continue
-		}
-		chk := callTo(otxT + "checkPreconditions")
-		c.ruleHeldAt(r, f, "checkPreconditions", chk, "ImmuStore.mutex", true, nil)
-		c.ruleHeldAt(r, f, "performPrecommit", callTo(storeT+"performPrecommit"), "ImmuStore.mutex", true, nil)
-		c.ruleOrder(r, f, "WaitForIndexingUpto", callTo(storeT+"WaitForIndexingUpto"), "checkPreconditions", chk, nil, 1)
-		c.ruleErrChecked(r, f, "checkPreconditions", chk, 1)
-		c.ruleErrChecked(r, f, "WaitForIndexingUpto", callTo(storeT+"WaitForIndexingUpto"), 1)
-		// from the lock to performPrecommit, validation is passed unless there is nothing to validate
-		locks := sites(f, func(in ssa.Instruction) bool {
-			k, op, ok := lockEvent(in)
-			_, isDefer := in.(*ssa.Defer)
-			return ok && !isDefer && op.acquire && k == "ImmuStore.mutex"
-		})
-		if len(locks) == 0 {
-			c.undecided(r, fnName(f)+":lock", "s.mutex.Lock() not found")
-			continue
-		}
-		noPre := whenCond(false, atomIsCall(otxT+"hasPreconditions"))
-		q := &pathQ{fn: f, from: locks, to: callTo(storeT + "performPrecommit"), via: chk, barrier: noPre}
-		if w := q.bypass(); w != nil {
-			c.fail(r, fnName(f)+":validation-before-precommit", c.pos(w[len(w)-1].Pos()), "performPrecommit is reachable from the lock without checkPreconditions although the tx has preconditions: "+c.witnessStr(w))
-		} else {
-			c.ok(r, fnName(f)+":validation-before-precommit", c.pos(f.Pos()), "every path lock -> performPrecommit passes checkPreconditions unless hasPreconditions() is false")
-		}
-		// the index is awaited up to the precommit frontier read inside the critical section
-		for i, in := range sites(f, callTo(storeT+"WaitForIndexingUpto")) {
-			if !instrDominates(locks[0], in) {
-				continue // the post-commit wait of commit paths
-			}
-			arg := callOf(in).Args[2]
-			dep := dependsOn(arg, func(v ssa.Value) bool {
-				cl, ok := v.(*ssa.Call)
-				return ok && (calleeName(&cl.Call) == storeT+"precommittedAlh" || calleeName(&cl.Call) == storeT+"LastPrecommittedTxID") && instrDominates(locks[0], cl)
-			})
-			c.check(dep, r, fmt.Sprintf("%s:wait-target-is-precommit-frontier#%d", fnName(f), i), c.pos(in.Pos()),
-				"waits for indexing up to the precommitted frontier read after the lock", "validation waits for indexing up to "+desc(arg)+", not the precommit frontier read inside the critical section")
-			// ... and to nothing lower: every value the target can take is the frontier itself (or, in unsafe-MVCC
-			// mode, the mandatory-MVCC floor); a target lowered by a min() with another quantity validates on a stale index
-			var bad []string
-			seen := map[ssa.Value]bool{}
-			var leaves func(v ssa.Value)
-			leaves = func(v ssa.Value) {
-				if seen[v] {
-					return
-				}
-				seen[v] = true
-				switch x := v.(type) {
-				case *ssa.Phi:
-					for _, e := range x.Edges {
-						leaves(e)
-					}
-					return
-				case *ssa.Extract:
-					if cl, ok := x.Tuple.(*ssa.Call); ok && calleeName(&cl.Call) == storeT+"precommittedAlh" && x.Index == 0 {
-						return
-					}
-				case *ssa.Call:
-					if calleeName(&x.Call) == storeT+"LastPrecommittedTxID" {
-						return
-					}
-				case *ssa.UnOp:
-					if fl, _ := fieldOf(x.X); x.Op == token.MUL && fl == "ImmuStore.mandatoryMVCCUpToTxID" {
-						return
-					}
-				}
-				bad = append(bad, desc(v))
-			}
-			leaves(arg)
-			c.check(len(bad) == 0, r, fmt.Sprintf("%s:wait-target-not-lowered#%d", fnName(f), i), c.pos(in.Pos()),
-				"every value of the wait target is the precommit frontier (or the mandatory-MVCC floor in unsafe mode)", "the indexing wait before validation can be for "+strings.Join(bad, ", ")+": transactions precommitted before this one may be missing from the index the reads are validated against")
-		}
-	}
+	validationInCriticalSection(c, "C05.3/validation-in-critical-section")
+
+	c05EverySnapshotValidated(c, "C05.3/every-snapshot-validated")
 
 	// ---- C05.4 snapshot floor -----------------------------------------------------------------------------
 	r = "C05.4/mandatory-mvcc"
@@ -582,8 +508,11 @@ func isByteSlice(t types.Type) bool {
 func c05SpecCopies(c *Ctx) {
 	r := "C05.2/replayed-spec-is-the-recorded-spec"
 	n := 0
+	// the structs that carry a scan range from the read to its replay: the caller's spec, the recorded expectation,
+	// the spec handed to the index and the index reader itself
+	specLike := map[string]bool{"KeyReaderSpec": true, "expectedPrefixFingerprint": true, "ReaderSpec": true, "Reader": true}
 	for _, fn := range c.allFns {
-		if !fnInPkgs(fn, []string{"embedded/store"}) || len(fn.Blocks) == 0 {
+		if !fnInPkgs(fn, []string{"embedded/store", "embedded/tbtree"}) || len(fn.Blocks) == 0 {
 			continue
 		}
 		per := 0
@@ -593,28 +522,33 @@ func c05SpecCopies(c *Ctx) {
 				return
 			}
 			fa, ok := st.Addr.(*ssa.FieldAddr)
-			if !ok || structName(fa.X.Type()) != "KeyReaderSpec" {
+			if !ok || !specLike[structName(fa.X.Type())] {
 				return
 			}
 			if _, isAlloc := fa.X.(*ssa.Alloc); !isAlloc {
 				return
 			}
-			ld, ok := st.Val.(*ssa.UnOp)
+			v := st.Val
+			// the recorded copy of a key goes through cp()
+			if call, ok := v.(*ssa.Call); ok && len(call.Call.Args) == 1 && strings.HasSuffix(calleeName(&call.Call), "embedded/store.cp") {
+				v = call.Call.Args[0]
+			}
+			ld, ok := v.(*ssa.UnOp)
 			if !ok || ld.Op != token.MUL {
 				return
 			}
 			sfa, ok := ld.X.(*ssa.FieldAddr)
-			if !ok || structName(sfa.X.Type()) != "KeyReaderSpec" || sfa.X == fa.X {
+			if !ok || !specLike[structName(sfa.X.Type())] || sfa.X == fa.X {
 				return
 			}
 			n++
 			per++
 			dst, src := fieldName(fa.X.Type(), fa.Field), fieldName(sfa.X.Type(), sfa.Field)
-			c.check(dst == src, r, fmt.Sprintf("%s:%s#%d", fnName(fn), dst, per), c.pos(st.Pos()), dst+" copied from "+src, "field "+dst+" of the rebuilt reader spec is taken from field "+src+" of the recorded one: the range replayed at commit is not the range that was read")
+			c.check(strings.EqualFold(dst, src), r, fmt.Sprintf("%s:%s#%d", fnName(fn), dst, per), c.pos(st.Pos()), dst+" copied from "+src, "field "+dst+" of the rebuilt reader spec is taken from field "+src+" of the recorded one: the range replayed at commit is not the range that was read")
 		})
 	}
-	if n < 10 {
-		c.undecided(r, "floor", fmt.Sprintf("%d field-by-field copies of a KeyReaderSpec found (12 confirmed by hand)", n))
+	if n < 25 {
+		c.undecided(r, "floor", fmt.Sprintf("%d field-by-field copies of a reader spec found (12 KeyReaderSpec copies confirmed by hand, plus the prefix-fingerprint record and the tbtree reader)", n))
 	}
 }
 
@@ -734,4 +668,125 @@ func c05OwnWrites(c *Ctx, r string) {
 		return false
 	}
 	c.ruleMustPass(r, f, nil, "entries/transientEntries[key]=e", recMain, nil, false)
+}
+
+// validationInCriticalSection: read-set and precondition validation runs under the store mutex, after an indexing
+// wait for the precommit frontier read inside that critical section, and is not bypassed. Shared by C05 (MVCC
+// read-set) and C06 (KV preconditions): both are evaluated by checkPreconditions.
+func validationInCriticalSection(c *Ctx, r string) {
+	for _, name := range []string{"precommit", "preCommitWith"} {
+		f := c.mustFn(r, storeT+name)
+		if f == nil {
+			continue
+		}
+		chk := callTo(otxT + "checkPreconditions")
+		c.ruleHeldAt(r, f, "checkPreconditions", chk, "ImmuStore.mutex", true, nil)
+		c.ruleHeldAt(r, f, "performPrecommit", callTo(storeT+"performPrecommit"), "ImmuStore.mutex", true, nil)
+		c.ruleOrder(r, f, "WaitForIndexingUpto", callTo(storeT+"WaitForIndexingUpto"), "checkPreconditions", chk, nil, 1)
+		c.ruleErrChecked(r, f, "checkPreconditions", chk, 1)
+		c.ruleErrChecked(r, f, "WaitForIndexingUpto", callTo(storeT+"WaitForIndexingUpto"), 1)
+		// from the lock to performPrecommit, validation is passed unless there is nothing to validate
+		locks := sites(f, func(in ssa.Instruction) bool {
+			k, op, ok := lockEvent(in)
+			_, isDefer := in.(*ssa.Defer)
+			return ok && !isDefer && op.acquire && k == "ImmuStore.mutex"
+		})
+		if len(locks) == 0 {
+			c.undecided(r, fnName(f)+":lock", "s.mutex.Lock() not found")
+			continue
+		}
+		noPre := whenCond(false, atomIsCall(otxT+"hasPreconditions"))
+		q := &pathQ{fn: f, from: locks, to: callTo(storeT + "performPrecommit"), via: chk, barrier: noPre}
+		if w := q.bypass(); w != nil {
+			c.fail(r, fnName(f)+":validation-before-precommit", c.pos(w[len(w)-1].Pos()), "performPrecommit is reachable from the lock without checkPreconditions although the tx has preconditions: "+c.witnessStr(w))
+		} else {
+			c.ok(r, fnName(f)+":validation-before-precommit", c.pos(f.Pos()), "every path lock -> performPrecommit passes checkPreconditions unless hasPreconditions() is false")
+		}
+		// the index is awaited up to the precommit frontier read inside the critical section
+		for i, in := range sites(f, callTo(storeT+"WaitForIndexingUpto")) {
+			if !instrDominates(locks[0], in) {
+				continue // the post-commit wait of commit paths
+			}
+			arg := callOf(in).Args[2]
+			dep := dependsOn(arg, func(v ssa.Value) bool {
+				cl, ok := v.(*ssa.Call)
+				return ok && (calleeName(&cl.Call) == storeT+"precommittedAlh" || calleeName(&cl.Call) == storeT+"LastPrecommittedTxID") && instrDominates(locks[0], cl)
+			})
+			c.check(dep, r, fmt.Sprintf("%s:wait-target-is-precommit-frontier#%d", fnName(f), i), c.pos(in.Pos()),
+				"waits for indexing up to the precommitted frontier read after the lock", "validation waits for indexing up to "+desc(arg)+", not the precommit frontier read inside the critical section")
+			// ... and to nothing lower: every value the target can take is the frontier itself (or, in unsafe-MVCC
+			// mode, the mandatory-MVCC floor); a target lowered by a min() with another quantity validates on a stale index
+			var bad []string
+			seen := map[ssa.Value]bool{}
+			var leaves func(v ssa.Value)
+			leaves = func(v ssa.Value) {
+				if seen[v] {
+					return
+				}
+				seen[v] = true
+				switch x := v.(type) {
+				case *ssa.Phi:
+					for _, e := range x.Edges {
+						leaves(e)
+					}
+					return
+				case *ssa.Extract:
+					if cl, ok := x.Tuple.(*ssa.Call); ok && calleeName(&cl.Call) == storeT+"precommittedAlh" && x.Index == 0 {
+						return
+					}
+				case *ssa.Call:
+					if calleeName(&x.Call) == storeT+"LastPrecommittedTxID" {
+						return
+					}
+				case *ssa.UnOp:
+					if fl, _ := fieldOf(x.X); x.Op == token.MUL && fl == "ImmuStore.mandatoryMVCCUpToTxID" {
+						return
+					}
+				}
+				bad = append(bad, desc(v))
+			}
+			leaves(arg)
+			c.check(len(bad) == 0, r, fmt.Sprintf("%s:wait-target-not-lowered#%d", fnName(f), i), c.pos(in.Pos()),
+				"every value of the wait target is the precommit frontier (or the mandatory-MVCC floor in unsafe mode)", "the indexing wait before validation can be for "+strings.Join(bad, ", ")+": transactions precommitted before this one may be missing from the index the reads are validated against")
+		}
+	}
+}
+
+// c05EverySnapshotValidated: a transaction holds one snapshot per index it touched and its read-set is validated
+// snapshot by snapshot. Nothing inside the loop over tx.snapshots may end validation with success: whatever is
+// concluded about one snapshot (e.g. "nothing was committed since it was taken") says nothing about the reads made
+// through the others, which may have been taken from an index that was lagging.
+func c05EverySnapshotValidated(c *Ctx, r string) {
+	f := c.mustFn(r, otxT+"checkPreconditions")
+	if f == nil {
+		return
+	}
+	n := 0
+	for _, b := range f.Blocks {
+		if len(b.Instrs) == 0 || len(b.Succs) != 2 {
+			continue
+		}
+		ifi, ok := b.Instrs[len(b.Instrs)-1].(*ssa.If)
+		if !ok {
+			continue
+		}
+		bo, ok := ifi.Cond.(*ssa.BinOp)
+		if !ok || bo.Op != token.LSS {
+			continue
+		}
+		d := desc(bo.Y)
+		if !strings.HasPrefix(d, "len(") || !strings.Contains(d, "snapshots") {
+			continue
+		}
+		n++
+		q := &pathQ{fn: f, fromEdges: []cfgEdge{{b, 0}}, to: successReturn, via: func(in ssa.Instruction) bool { return in == ssa.Instruction(ifi) }}
+		if w := q.bypass(); w != nil {
+			c.fail(r, fmt.Sprintf("%s:snapshots-loop#%d", fnName(f), n), c.pos(w[len(w)-1].Pos()), "validation ends with success from inside the loop over the transaction's snapshots, the remaining snapshots are not validated: "+c.witnessStr(w))
+		} else {
+			c.ok(r, fmt.Sprintf("%s:snapshots-loop#%d", fnName(f), n), c.pos(ifi.Pos()), "success is reported only after the loop over tx.snapshots has run out")
+		}
+	}
+	if n != 1 {
+		c.undecided(r, fnName(f)+":loop", fmt.Sprintf("%d loops over tx.snapshots recognised, expected 1", n))
+	}
 }
